@@ -542,3 +542,258 @@ def inline_helpers(fn: ast.FunctionDef, methods: T.Dict[str, T.Any], vocab: T.It
     new_fn = copy.deepcopy(fn)
     new_fn.body = block(new_fn.body, depth)
     return ast.fix_missing_locations(new_fn)
+
+
+# -- canonical spelling (round 6: the same code written differently must give the same atoms/shapes) ---------------
+
+def _is_strish(e: ast.AST) -> bool:
+    return (isinstance(e, ast.Constant) and isinstance(e.value, str)) or isinstance(e, ast.JoinedStr)
+
+
+def _template(parts: T.List[ast.AST]) -> ast.AST:
+    vals: T.List[ast.AST] = []
+    for p in parts:
+        if isinstance(p, ast.JoinedStr):
+            sub = list(p.values)
+        elif isinstance(p, ast.Constant) and isinstance(p.value, str):
+            sub = [p]
+        else:
+            sub = [ast.FormattedValue(value=p, conversion=-1, format_spec=None)]
+        for s in sub:
+            if isinstance(s, ast.Constant) and vals and isinstance(vals[-1], ast.Constant):
+                vals[-1] = ast.Constant(value=vals[-1].value + s.value)
+            elif not (isinstance(s, ast.Constant) and s.value == ''):
+                vals.append(s)
+    if len(vals) == 1 and isinstance(vals[0], ast.Constant):
+        return vals[0]
+    return ast.JoinedStr(values=vals)
+
+
+def _add_chain(e: ast.AST) -> T.List[ast.AST]:
+    if isinstance(e, ast.BinOp) and isinstance(e.op, ast.Add):
+        return _add_chain(e.left) + _add_chain(e.right)
+    return [e]
+
+
+def _pure_ref(e: ast.AST) -> bool:
+    return attr_chain(e) is not None or isinstance(e, ast.Constant)
+
+
+class _Canon(ast.NodeTransformer):
+    """One spelling for: arguments of calls of methods of the same class (bound by signature), text templates
+    (`a + 'lit'`, `'%s..' % a`, `'{}..'.format(a)`, f-strings), `len(x)` compared with 0/1, membership in a short display,
+    chained comparisons."""
+
+    def __init__(self, methods: T.Dict[str, T.Any], cls: str):
+        self.methods, self.cls = methods, cls
+
+    def visit_Call(self, c: ast.Call) -> ast.AST:
+        self.generic_visit(c)
+        # Class.m(self, ...) -> self.m(...)
+        if isinstance(c.func, ast.Attribute) and isinstance(c.func.value, ast.Name) and c.func.value.id == self.cls and c.func.attr in self.methods \
+                and c.args and isinstance(c.args[0], ast.Name) and c.args[0].id == 'self':
+            c = ast.copy_location(ast.Call(func=ast.Attribute(value=ast.Name(id='self', ctx=ast.Load()), attr=c.func.attr, ctx=ast.Load()),
+                                           args=c.args[1:], keywords=c.keywords), c)
+        m = self_method_called(c)
+        if m and m in self.methods and c.keywords and not any(k.arg is None for k in c.keywords) and not any(isinstance(a, ast.Starred) for a in c.args):
+            callee = self.methods[m]
+            a = callee.args
+            static = any(attr_chain(d) == 'staticmethod' for d in callee.decorator_list)
+            params = [p.arg for p in a.posonlyargs + a.args][0 if static else 1:]
+            if not a.vararg:
+                kws = {k.arg: k.value for k in c.keywords}
+                args = list(c.args)
+                while len(args) < len(params) and params[len(args)] in kws:
+                    args.append(kws.pop(params[len(args)]))
+                rest = [k for k in c.keywords if k.arg in kws]
+                rest.sort(key=lambda k: params.index(k.arg) if k.arg in params else 999)
+                c = ast.copy_location(ast.Call(func=c.func, args=args, keywords=rest), c)
+        # '{}..'.format(a)
+        if isinstance(c.func, ast.Attribute) and c.func.attr == 'format' and isinstance(c.func.value, ast.Constant) and isinstance(c.func.value.value, str) \
+                and not c.keywords and not any(isinstance(a, ast.Starred) for a in c.args):
+            lit = c.func.value.value
+            pieces = lit.split('{}')
+            if len(pieces) == len(c.args) + 1 and '{' not in ''.join(pieces) and '}' not in ''.join(pieces):
+                parts: T.List[ast.AST] = []
+                for i, p in enumerate(pieces):
+                    parts.append(ast.Constant(value=p))
+                    if i < len(c.args):
+                        parts.append(c.args[i])
+                return ast.copy_location(_template(parts), c)
+        return c
+
+    def visit_BinOp(self, e: ast.BinOp) -> ast.AST:
+        self.generic_visit(e)
+        if isinstance(e.op, ast.Add):
+            chain = _add_chain(e)
+            if any(_is_strish(x) or (isinstance(x, ast.IfExp) and _is_strish(x.body) and _is_strish(x.orelse)) for x in chain):
+                # a + (X if c else Y) with literal X, Y -> (a + X) if c else (a + Y)
+                for i, x in enumerate(chain):
+                    if isinstance(x, ast.IfExp) and _is_strish(x.body) and _is_strish(x.orelse):
+                        return ast.copy_location(ast.IfExp(test=x.test, body=_template(chain[:i] + [x.body] + chain[i + 1:]),
+                                                           orelse=_template(chain[:i] + [x.orelse] + chain[i + 1:])), e)
+                return ast.copy_location(_template(chain), e)
+        if isinstance(e.op, ast.Mod) and isinstance(e.left, ast.Constant) and isinstance(e.left.value, str):
+            lit = e.left.value
+            args = list(e.right.elts) if isinstance(e.right, ast.Tuple) else [e.right]
+            pieces = lit.split('%s')
+            if len(pieces) == len(args) + 1 and '%' not in ''.join(pieces) and not isinstance(e.right, ast.Dict):
+                parts: T.List[ast.AST] = []
+                for i, p in enumerate(pieces):
+                    parts.append(ast.Constant(value=p))
+                    if i < len(args):
+                        parts.append(args[i])
+                return ast.copy_location(_template(parts), e)
+        return e
+
+    def visit_JoinedStr(self, e: ast.JoinedStr) -> ast.AST:
+        self.generic_visit(e)
+        return ast.copy_location(_template([e]), e)
+
+    def visit_Compare(self, e: ast.Compare) -> ast.AST:
+        self.generic_visit(e)
+        if len(e.ops) > 1 and all(_pure_ref(x) for x in e.comparators[:-1]):
+            terms = []
+            left = e.left
+            for op, right in zip(e.ops, e.comparators):
+                terms.append(self.visit_Compare(ast.Compare(left=left, ops=[op], comparators=[right])))
+                left = right
+            return ast.copy_location(ast.BoolOp(op=ast.And(), values=terms), e)
+        if len(e.ops) != 1:
+            return e
+        op, l, r = e.ops[0], e.left, e.comparators[0]
+        if isinstance(l, ast.Call) and call_name_(l) == 'len' and len(l.args) == 1 and isinstance(r, ast.Constant) and r.value in (0, 1):
+            x = l.args[0]
+            empty = ast.UnaryOp(op=ast.Not(), operand=x)
+            if (r.value == 0 and isinstance(op, ast.Eq)) or (r.value == 1 and isinstance(op, ast.Lt)):
+                return ast.copy_location(empty, e)
+            if (r.value == 0 and isinstance(op, (ast.NotEq, ast.Gt))) or (r.value == 1 and isinstance(op, ast.GtE)):
+                return ast.copy_location(ast.Call(func=ast.Name(id='bool', ctx=ast.Load()), args=[x], keywords=[]), e) if False else x
+        if isinstance(op, (ast.In, ast.NotIn)) and isinstance(r, (ast.Tuple, ast.List, ast.Set)) and 1 <= len(r.elts) <= 4 \
+                and attr_chain(l) is not None and all(_pure_ref(x) for x in r.elts):
+            eq = isinstance(op, ast.In)
+            terms = [ast.Compare(left=l, ops=[ast.Eq() if eq else ast.NotEq()], comparators=[x]) for x in r.elts]
+            return ast.copy_location(terms[0] if len(terms) == 1 else ast.BoolOp(op=ast.Or() if eq else ast.And(), values=terms), e)
+        return e
+
+
+def call_name_(c: ast.Call) -> T.Optional[str]:
+    return attr_chain(c.func)
+
+
+def canonical(e: ast.AST, methods: T.Optional[T.Dict[str, T.Any]] = None, cls: str = '') -> ast.AST:
+    """canonical spelling of a (reference) expression"""
+    return ast.fix_missing_locations(_Canon(methods or {}, cls).visit(copy.deepcopy(e)))
+
+
+def _single_defs(fn: ast.FunctionDef) -> T.Dict[str, ast.AST]:
+    params = {a.arg for a in fn.args.posonlyargs + fn.args.args + fn.args.kwonlyargs}
+    return tables._inlinable_locals(fn.body, params, tables.INLINE_CALLS | {'get_varname', 'find_dep_provider', 'get_value_for', 'from_string', 'OptionKey'})
+
+
+def _desugar_next(fn: ast.FunctionDef) -> None:
+    """`t = next((E for v in IT if C), D)` -> `t = D; for v in IT: if C: t = E; break`, where IT may itself be a
+    generator expression (or a single-definition local bound to one): its element is bound to v inside the loop."""
+    gens: T.Dict[str, ast.GeneratorExp] = {}
+    for n in ast.walk(fn):
+        if isinstance(n, ast.Assign) and len(n.targets) == 1 and isinstance(n.targets[0], ast.Name) and isinstance(n.value, ast.GeneratorExp):
+            name = n.targets[0].id
+            if sum(1 for x in ast.walk(fn) if isinstance(x, ast.Name) and x.id == name and isinstance(x.ctx, ast.Store)) == 1 \
+                    and sum(1 for x in ast.walk(fn) if isinstance(x, ast.Name) and x.id == name and isinstance(x.ctx, ast.Load)) == 1:
+                gens[name] = n.value
+
+    def simple(g: ast.AST) -> bool:
+        return isinstance(g, ast.GeneratorExp) and len(g.generators) == 1 and not g.generators[0].is_async
+
+    def loop(g: ast.GeneratorExp, inner: T.Callable[[ast.AST], T.List[ast.stmt]], at: ast.AST) -> T.Optional[T.List[ast.stmt]]:
+        """statements that run inner(<element expression>) for every element of g"""
+        c = g.generators[0]
+        body: T.List[ast.stmt] = inner(g.elt)
+        for cond in reversed(c.ifs):
+            body = [ast.If(test=cond, body=body, orelse=[])]
+        it = gens.get(c.iter.id, c.iter) if isinstance(c.iter, ast.Name) else c.iter
+        if isinstance(it, ast.GeneratorExp):
+            if not simple(it):
+                return None
+            tgt = c.target
+            return loop(it, lambda el: [T.cast(ast.stmt, ast.Assign(targets=[tgt], value=el, lineno=at.lineno))] + body, at)  # type: ignore[attr-defined]
+        return [ast.For(target=c.target, iter=it, body=body, orelse=[], lineno=at.lineno)]  # type: ignore[attr-defined]
+
+    def block(stmts: T.List[ast.stmt]) -> T.List[ast.stmt]:
+        out: T.List[ast.stmt] = []
+        for st in stmts:
+            for field in ('body', 'orelse', 'finalbody'):
+                sub = getattr(st, field, None)
+                if isinstance(sub, list) and sub and isinstance(sub[0], ast.stmt) and not isinstance(st, (ast.FunctionDef, ast.AsyncFunctionDef, ast.ClassDef)):
+                    setattr(st, field, block(sub))
+            for h in getattr(st, 'handlers', []):
+                h.body = block(h.body)
+            v = st.value if isinstance(st, (ast.Assign, ast.AnnAssign)) else None
+            if isinstance(st, ast.Assign) and len(st.targets) == 1 and isinstance(st.targets[0], ast.Name) and st.targets[0].id in gens:
+                continue       # the generator object itself is consumed by the desugared loop
+            if isinstance(v, ast.Call) and call_name_(v) == 'next' and len(v.args) == 2 and not v.keywords:
+                g = gens.get(v.args[0].id, v.args[0]) if isinstance(v.args[0], ast.Name) else v.args[0]
+                tgts = st.targets if isinstance(st, ast.Assign) else [st.target]
+                if simple(g) and len(tgts) == 1 and isinstance(tgts[0], ast.Name):
+                    t = tgts[0]
+                    lp = loop(T.cast(ast.GeneratorExp, g), lambda el: [ast.Assign(targets=[t], value=el, lineno=st.lineno), ast.Break()], st)
+                    if lp is not None:
+                        out.append(ast.copy_location(ast.Assign(targets=[t], value=v.args[1], lineno=st.lineno), st))
+                        out.extend(lp)
+                        continue
+            out.append(st)
+        return out
+    used = {n.args[0].id for n in ast.walk(fn) if isinstance(n, ast.Call) and call_name_(n) == 'next' and len(n.args) == 2 and isinstance(n.args[0], ast.Name)}
+    gens = {k: g for k, g in gens.items() if k in used or any(isinstance(c.iter, ast.Name) and c.iter.id == k for g2 in gens.values() for c in g2.generators)
+            or any(isinstance(n, ast.GeneratorExp) and any(isinstance(c.iter, ast.Name) and c.iter.id == k for c in n.generators) for n in ast.walk(fn))}
+    if any(isinstance(n, ast.Call) and call_name_(n) == 'next' and len(n.args) == 2 for n in ast.walk(fn)):
+        fn.body = block(fn.body)
+
+
+def _bool_returns(fn: ast.FunctionDef) -> None:
+    """in a function declared `-> bool`: `return <and/or/not/comparison>` -> `if <..>: return True` / `return False`"""
+    if not (isinstance(fn.returns, ast.Name) and fn.returns.id == 'bool'):
+        return
+
+    def block(stmts: T.List[ast.stmt]) -> T.List[ast.stmt]:
+        out: T.List[ast.stmt] = []
+        for st in stmts:
+            for field in ('body', 'orelse', 'finalbody'):
+                sub = getattr(st, field, None)
+                if isinstance(sub, list) and sub and isinstance(sub[0], ast.stmt) and not isinstance(st, (ast.FunctionDef, ast.AsyncFunctionDef, ast.ClassDef)):
+                    setattr(st, field, block(sub))
+            for h in getattr(st, 'handlers', []):
+                h.body = block(h.body)
+            if isinstance(st, ast.Return) and isinstance(st.value, (ast.BoolOp, ast.Compare)) or \
+                    (isinstance(st, ast.Return) and isinstance(st.value, ast.UnaryOp) and isinstance(st.value.op, ast.Not)):
+                out.append(ast.copy_location(ast.If(test=st.value, body=[ast.copy_location(ast.Return(value=ast.Constant(value=True)), st)],
+                                                    orelse=[ast.copy_location(ast.Return(value=ast.Constant(value=False)), st)]), st))
+            else:
+                out.append(st)
+        return out
+    fn.body = block(fn.body)
+
+
+def _inline_bool_locals(fn: ast.FunctionDef) -> None:
+    """a condition bound to a single-definition local first (`forced = a and b` ... `if not forced:`) is put back where it is tested"""
+    loc = {k: v for k, v in _single_defs(fn).items() if isinstance(v, ast.BoolOp) or (isinstance(v, ast.UnaryOp) and isinstance(v.op, ast.Not))}
+    if not loc:
+        return
+
+    class Put(ast.NodeTransformer):
+        def visit_Name(self, n: ast.Name) -> ast.AST:
+            return copy.deepcopy(loc[n.id]) if isinstance(n.ctx, ast.Load) and n.id in loc else n
+    for _ in range(2):
+        for k in list(loc):
+            loc[k] = Put().visit(copy.deepcopy(loc[k]))
+    for st in fn.body:
+        Put().visit(st)
+
+
+def canonicalise(fn: ast.FunctionDef, methods: T.Dict[str, T.Any], cls: str) -> ast.FunctionDef:
+    """in place on a private copy of a function: the spelling normalisations above"""
+    _desugar_next(fn)
+    _inline_bool_locals(fn)
+    fn = _Canon(methods, cls).visit(fn)
+    _bool_returns(fn)
+    return ast.fix_missing_locations(fn)
